@@ -183,7 +183,7 @@ func rebuild(b []byte, lv *level, path []int, at int, ins []byte) []byte {
 
 // pickUnknown returns the first candidate type number that the level's model does not know and
 // that does not occur in the level.
-func pickUnknown(lv *level, cands []uint64, nth int) uint64 {
+func pickUnknown(lv *level, cands []uint64) uint64 {
 	for _, c := range cands {
 		if lv.model.known[c] {
 			continue
@@ -194,17 +194,20 @@ func pickUnknown(lv *level, cands []uint64, nth int) uint64 {
 				used = true
 			}
 		}
-		if used {
-			continue
-		}
-		if nth == 0 {
+		if !used {
 			return c
 		}
-		nth--
 	}
 	panic("no unknown type candidate left")
 }
 
-// non-critical: > 31 and even; critical: <= 31 or odd (NDN packet format, section "TLV evolvability")
-var nonCritCands = []uint64{0xf0, 0x3fe, 0xf2, 0x400, 0xf4, 0x10000, 0xf6, 0xf8}
-var critCands = []uint64{0x1f, 0xf1, 0x3ff, 0x1d, 0xf3, 0x10001, 0xf5, 0x1b}
+// NDN packet format, "TLV evolvability": types 0..31 are critical; above that, odd types are
+// critical and even types are non-critical. Each list probes one side of one rule.
+var (
+	nonCritEven   = []uint64{0xf0, 0xf2, 0xf4, 0xf6, 0xf8, 0xfa}       // even, 1-byte type
+	nonCritLowest = []uint64{0x20, 0x3fe, 0x400, 0x10000, 0x402, 0x404} // 32 = smallest non-critical; then 3- and 5-byte types
+	nonCritWide   = []uint64{0x3fe, 0x400, 0x10000, 0x402, 0x404, 0x406}
+	critLowEven   = []uint64{0x1e, 0x1c, 0x10, 0x0e, 0x04, 0x02, 0x1a} // <= 31 and even: critical only by the range rule
+	critOddHigh   = []uint64{0xf1, 0x3ff, 0xf3, 0x10001, 0xf5, 0xf7}   // > 31 and odd: critical only by the parity rule
+	critOddWide   = []uint64{0x3ff, 0x10001, 0x401, 0x403, 0x405, 0x407}
+)
